@@ -128,6 +128,15 @@ check('C09',
       'Real Clock thread on virtual time (tick 1 s), fair scheduler (time slice, yield on already-set event). One open known finding (stop before the run is armed), 5 signatures by script.',
       'DESIGN.md C09')
 
+check('C10',
+      'stateless deviation-bounded schedule exploration of the real Clock thread and Machine over virtual time; timeline oracle on the virtual-time trace',
+      'For every configuration (delay sequences over {0,0.5,1,2.5} in logical seconds and raw ms x device work {0,0.4,3} s x tick {1,0.3} s, plus time-of-day waits '
+      'before/between/after with the wall clock 0..2 minutes short) every schedule with <=1 deviation (thorough <=2 for single delays, all length-3 sequences at 1) '
+      'is executed; the k-th delay never returns before S+c_k, returns at once when already due, otherwise within one tick (+ stalled time); zero delays never touch '
+      'the clock; raw values are ms; the time line restarts when the awaited minute is first seen; commands only after their delay.',
+      'Virtual time advances only when nothing is runnable or through stall deviations (amount tracked and added to the lateness allowance).',
+      'DESIGN.md C10')
+
 NOT_YET = 'check not built yet in this session (design in DESIGN.md); will be claimed when its command exists'
 
 
